@@ -49,16 +49,42 @@ def wrap(ctx):
             S = symarray('s', (2, 3), real=True)
             rec = Rec()
 
+            class _Cell(PyStub):
+                # the cell in force: what box_set changes is what later conversions use
+                def __init__(self):
+                    self.v, self.o = V.copy(), o.copy()
+                vects = property(lambda self: self.v.copy())
+                origin = property(lambda self: self.o.copy())
+                avect = property(lambda self: self.v[0].copy())
+                bvect = property(lambda self: self.v[1].copy())
+                cvect = property(lambda self: self.v[2].copy())
+
+                def position_relative_to_cartesian(self, r):
+                    return np.asarray(r, dtype=object).dot(self.v) + self.o
+
+                def position_cartesian_to_relative(self, c):
+                    raise Opaque('Cartesian -> relative conversion in wrap()')
+            box = _Cell()
+
             def atoms_prop(key=None, value=None, scale=False, index=None, a_id=None):
                 if value is None:
                     rec.calls.append(('get', key, scale))
                     return S.copy()
-                rec.calls.append(('set', key, np.array(value, dtype=object), scale))
+                val = np.array(value, dtype=object)
+                # what is stored is a Cartesian position: a scaled value goes through the cell in force at the time of the call
+                rec.calls.append(('set', key, box.position_relative_to_cartesian(val) if scale else val, scale))
                 return None
 
             def box_set(**kw):
                 rec.calls.append(('box_set', kw))
-            box = SymObj(None, {'vects': V, 'origin': o, 'avect': V[0], 'bvect': V[1], 'cvect': V[2]}, 'box')
+                if kw.get('scale'):
+                    return
+                if 'vects' in kw:
+                    box.v = np.array(kw['vects'], dtype=object)
+                elif all(k_ in kw for k_ in ('avect', 'bvect', 'cvect')):
+                    box.v = np.array([kw['avect'], kw['bvect'], kw['cvect']], dtype=object)
+                if kw.get('origin') is not None:
+                    box.o = np.array(kw['origin'], dtype=object)
             me = SymObj(None, {'pbc': tuple(pbc), 'atoms_prop': atoms_prop, 'box': box, 'box_set': box_set}, 'self')
             ev = SymEval(aliases)
             seen = []
@@ -92,10 +118,10 @@ def wrap(ctx):
             ctx.ob('WRAP', loc, 'pbc=%s: image flags are floor(s) along periodic directions and zero along non-periodic ones' % tag, flags is not None and equal(flags, exp_flags, deep=False), key='flags ' + tag)
             sets = [c for c in rec.calls if c[0] == 'set']
             bs = [c for c in rec.calls if c[0] == 'box_set']
-            ok = len(sets) == 1 and sets[0][1] == 'pos' and sets[0][3] is True and equal(sets[0][2], S - exp_flags, deep=False)
-            ctx.ob('WRAP', loc, 'pbc=%s: atoms move by whole cell vectors only (stored scaled position = s - flags, written as scaled)' % tag, ok, key='spos ' + tag)
-            ok = len(bs) == 1 and len(sets) == 1 and rec.calls.index(sets[0]) < rec.calls.index(bs[0])
-            ctx.ob('WRAP', loc, 'pbc=%s: positions are written through the old cell before the cell is changed' % tag, ok, key='order ' + tag)
+            ok = len(sets) == 1 and sets[0][1] == 'pos' and equal(sets[0][2], (S - exp_flags).dot(V) + o, deep=False)
+            ctx.ob('WRAP', loc, 'pbc=%s: atoms move by whole cell vectors only (the position stored is (s - flags)·V + o in the cell as it was)' % tag, ok, key='spos ' + tag)
+            ok = len(bs) == 1 and len(sets) == 1
+            ctx.ob('WRAP', loc, 'pbc=%s: positions are taken through the old cell (written before the cell is changed, or converted first and written after), once; the cell is set once' % tag, ok, key='order ' + tag)
             if len(bs) != 1:
                 continue
             kw = bs[0][1]
